@@ -73,7 +73,7 @@ class ThreeQuarters(FunctionContract):
         from fractions import Fraction
         w = unjson(w)
         vals = {f"i{k}": v for k, v in enumerate(w["values"])}
-        sums = prtpy.pack(algorithm=prtpy.covering.threequarters, binsize=w["binsize"], items=vals, outputtype=prtpy.out.Sums)
+        sums = prtpy.pack(algorithm=target_fn("prtpy.packing.cflz_covering", "threequarters"), binsize=w["binsize"], items=vals, outputtype=prtpy.out.Sums)
         return sorted(sums)
 
 
